@@ -140,6 +140,39 @@ def check(ctx):
                 vf.violation(ctx, "S-multi-full-%d" % m, {"kind": kind, "suite": "S-multi (full configuration, library only)", "case": c, "interleaved": o[-3000:],
                                                          "solo_runs_joined": exp[-3000:], "theorem": "Properties_C19.v C19_noninterference (shape of the code)"})
     ctx.cov["suites"]["S-multi-full(impl only)"] = {"cases": len(fmulti), "connections": len(fsolo), "mismatch_vs_solo": nfb}
+    # configuration copies are independent configurations: a parser of the original never sees callbacks registered on the copy afterwards (and vice versa),
+    # whatever subset of the hooks was registered before the copy; both can be destroyed (suite S-cfgcopy, library against itself)
+    HOOKS = [0, 1, 2, 3, 4, 5, 7, 8, 9, 10, 11, 12, 13, 14, 15, 16, 17, 18]
+    masks = [1 << h for h in HOOKS] + [sum(1 << h for h in HOOKS)] + [sum(1 << h for h in rng.sample(HOOKS, rng.randint(1, 6))) for _ in range(12 if not ctx.thorough() else 60)]
+    rqc = b"POST /c HTTP/1.1\r\nHost: a\r\nTransfer-Encoding: chunked\r\nTrailer: X-T\r\n\r\n3\r\nabc\r\n0\r\nX-T: 1\r\n\r\n"
+    rsc = b"HTTP/1.1 200 OK\r\nTransfer-Encoding: chunked\r\n\r\n2\r\nhi\r\n0\r\nX-U: 2\r\n\r\n"
+    cops = ",".join(["O"] + ["Q" + x.hex() for x in sconnp.cut(rqc, sconnp.split_points(rqc, rng, "random"))] + ["S" + x.hex() for x in sconnp.cut(rsc, sconnp.split_points(rsc, rng, "random"))] + ["C"])
+    ccases = []
+    for mk in masks:
+        for mode in (0, 1, 2):
+            ccases.append("cfgcopy\tp=%d,auto=%d\t%x\t%d\t%s" % (rng.choice([1, 9]) if mode == 0 else 0, 0, mk, mode, cops))
+    # the three modes of one mask must use the same personality: regenerate consistently
+    ccases = []
+    for mk in masks:
+        pers = rng.choice([1, 9])
+        for mode in (0, 1, 2):
+            ccases.append("cfgcopy\tp=%d,auto=0\t%x\t%d\t%s" % (pers, mk, mode, cops))
+    co, cbad = vf.run_sharded(ctx, exe, ccases, "S-cfgcopy")
+    co, _ = vf.strip_traces(co)
+    ctx.cov["evaluations"] += len(ccases)
+    ncc = 0
+    if cbad:
+        vf.report_crash(ctx, "S-cfgcopy", ccases, cbad)
+    else:
+        for k in range(0, len(ccases), 3):
+            base, c1, c2 = co[k], co[k + 1], co[k + 2]
+            for which, o in (("copy then register on the copy, run on the original", c1), ("copy then register on the original, run on the copy", c2)):
+                if o != base:
+                    ncc += 1
+                    if ncc <= 2:
+                        vf.violation(ctx, "S-cfgcopy-%d" % k, {"kind": "configuration-copy-shares-state-with-the-original", "suite": "S-cfgcopy", "case": ccases[k + 1], "mode": which,
+                                                              "without_copy": base[-1500:], "with_copy": o[-1500:]})
+    ctx.cov["suites"]["S-cfgcopy(impl only)"] = {"cases": len(ccases), "mismatches": ncc}
     # writable globals
     objs = vf.build_objs(ctx, "plain")
     found = set()
